@@ -268,7 +268,7 @@ fn c02(seed: u64, case: u64, out: &Out) {
         ths.push(std::thread::spawn(move || {
             for k in 0..per {
                 let uid = j * 10_000 + k;
-                let kind = r.below(5); // 0 instant, 1 busy 1 ms, 2 delay 5 ms, 3 panic static, 4 panic formatted
+                let kind = r.below(6); // 0 instant, 1 busy 1 ms, 2 delay 5 ms, 3 panic static, 4 panic formatted, 5 slow (80 ms) and joined twice
                 let name = format!("c02-{uid}-{}", r.next_u64());
                 let name2 = name.clone();
                 let h = EventLoops::submit_task(
@@ -284,6 +284,11 @@ fn c02(seed: u64, case: u64, out: &Out) {
                             2 => {
                                 if let Some(s) = SchedulableSuspender::current() {
                                     s.delay(Duration::from_millis(5));
+                                }
+                            }
+                            5 => {
+                                if let Some(s) = SchedulableSuspender::current() {
+                                    s.delay(Duration::from_millis(80));
                                 }
                             }
                             _ => {}
@@ -311,6 +316,27 @@ fn c02(seed: u64, case: u64, out: &Out) {
                 let id = h.id().unwrap_or(0);
                 if r.chance(1, 3) {
                     std::thread::sleep(Duration::from_micros(r.below(3000)));
+                }
+                if kind == 5 {
+                    // a first, short join gives up while the task is still running; the task then finishes with nobody waiting
+                    let first = h.timeout_join(Duration::from_millis(10));
+                    let fin_now = FINISHED.lock().unwrap().as_ref().and_then(|m| m.get(&id).copied());
+                    if let Ok(v) = &first {
+                        // (with the forced schedule the waiter is held until the task is done, so the first join may already succeed)
+                        let gots = match v {
+                            Ok(x) => format!("Ok({x:?})"),
+                            Err(m) => format!("Err({m})"),
+                        };
+                        let want = if fin_now.is_some() { format!("Ok(Some({}))", uid + 1) } else { "JoinError(TimedOut) for an unfinished task".to_string() };
+                        results.lock().unwrap().push((uid, want, gots, 0, true));
+                        drop(h);
+                        continue;
+                    }
+                    let t0 = Instant::now();
+                    while FINISHED.lock().unwrap().as_ref().and_then(|m| m.get(&id).copied()).is_none() && t0.elapsed() < Duration::from_secs(3) {
+                        std::thread::sleep(Duration::from_millis(2));
+                    }
+                    std::thread::sleep(Duration::from_millis(20));
                 }
                 let t_call = mono_ns();
                 let fin_before = FINISHED.lock().unwrap().as_ref().and_then(|m| m.get(&id).copied());
